@@ -3,6 +3,8 @@ import AdfObdd.Bridge
 import AdfObdd.IsoCheck
 import AdfObdd.PreGround
 import AdfObdd.FromParserProofs
+import AdfObdd.HybridExample
+import AdfObdd.WfCheck
 /-! # C09 — compilation to diagrams preserves every acceptance condition (native + bridge) -/
 namespace C09
 
@@ -37,10 +39,98 @@ theorem validator_sound (sa sb : Store) (ca : wfCheck sa.nodes = true) (cb : wfC
     (fuel a b : Nat) (h : (isoF sa.nodes sb.nodes fuel {} a b).1 = true) :
     ∀ σ, eval sa a σ = eval sb b σ := isoCheck_sound sa sb ca cb fuel a b h
 
-/-- pre-grounded import: the function expected there is the condition with the grounded truth values
-substituted (`pre D g`), position by position -/
-theorem pregrounded_function (D : List BoolFn) (g : I3) (i : Nat) (f : BoolFn) (h : D[i]? = some f) :
-    (pre D g)[i]? = some (fun σ => f (over σ 0 g)) := pre_get D g i f h
+/-- what `from_biodivine_vector` does with the first two dump entries: NOTHING - for `idx == 0` it pushes
+`Term(0)`, for `idx == 1` it pushes `Term(1)`, without parsing the entry. The model (`Bio.termVec`) is
+faithful to that: two dumps that differ only in their first two entries are replayed identically. The
+assumption "entry 0 is the ⊥ terminal, entry 1 the ⊤ terminal" is therefore not a shape condition the
+code could violate or check; it is part of HOW A DUMP IS READ AS A FUNCTION (`Den d 0 = ⊥`, `Den d 1 = ⊤`,
+Bridge.lean) and enters every theorem through `Bio.DumpSpec` ("the last entry denotes the diagram").
+`Bio.dumpTerminals` is the checkable shape biodivine actually writes (`|nv,0,0|nv,1,1|`). -/
+theorem bridge_ignores_terminal_entries (a b a' b' : Node) (rest : List Node) (s : Store) :
+    Bio.termVec (a :: b :: rest) s = Bio.termVec (a' :: b' :: rest) s ∧
+    Bio.termVec (a :: b :: rest) s = replayL ((a :: b :: rest).drop 2) s [0, 1] := ⟨rfl, rfl⟩
+
+/-- **hybrid import** (`hybrid_step_opt(opt)` = optional biodivine grounding + `from_biodivine_vector`; model
+`Bio.hybridStep`, HybridModel.lean: every diagram dumped and replayed through `Bdd::node` into ONE fresh
+store, in statement order; `is_true` / `is_false` diagrams become `Term(1)` / `Term(0)` without a dump).
+The built store is well formed and position by position the handle of statement `i` is valid and denotes
+ * `opt = false` (also `Adf::from_biodivine`): the acceptance condition of statement `i` itself;
+ * `opt = true` (`hybrid_step`): that condition with the grounded interpretation `g` substituted for the
+   decided statements - `g` being the least fixpoint of Γ and the vector biodivine's `grounded` reports.
+Assumptions about the external crate, as hypotheses: `W : Bio.Lawful L n`, `hd : Bio.DumpSpec W dump`.
+(This replaces the former `pregrounded_function`, which only unfolded the definition of `pre`.) -/
+theorem hybrid_import_function {T : Type} (L : Bio.Lib T) (n : Nat) (W : Bio.Lawful L n)
+    (dump : T → List Node) (hd : Bio.DumpSpec W dump) (opt : Bool)
+    (ac : List T) (hv : ∀ a ∈ ac, W.Valid a) (hn : ac.length = n) :
+    let r := Bio.hybridStep L dump opt ac
+    let g := (Bio.bioGrounded L ac).map storeIsConst
+    WF r.1 ∧ r.2.length = n ∧ IsLfp (ac.map W.den) g ∧
+    ∀ (i t : Nat) (a : T), r.2[i]? = some t → ac[i]? = some a →
+      t < r.1.nodes.size ∧ ∀ σ, eval r.1 t σ = W.den a (if opt then over σ 0 g else σ) :=
+  Bio.hybrid_handles W hd opt ac hv hn
+
+/-- the residual vector handed over by `hybrid_step`: biodivine's `grounded_internal` returns valid
+diagrams denoting `pre D g` - every condition restricted by the least fixpoint `g` (not merely by the
+snapshots of the individual rounds) -/
+theorem biodivine_residual_is_pregrounded {T : Type} (L : Bio.Lib T) (n : Nat) (W : Bio.Lawful L n)
+    (ac : List T) (hv : ∀ a ∈ ac, W.Valid a) (hn : ac.length = n) :
+    let g := (Bio.groundedInternal L ac).map L.isConst
+    (∀ y ∈ Bio.groundedInternal L ac, W.Valid y) ∧ IsLfp (ac.map W.den) g ∧
+    (Bio.groundedInternal L ac).map W.den = pre (ac.map W.den) g :=
+  let h := Bio.groundedInternal_pre W ac hv (by omega)
+  ⟨h.1, h.2.2.1, h.2.2.2⟩
+
+/-- non-vacuity of `hybrid_import_function` (lawful truth-table library over two variables, decision-tree
+dump): `s(a). s(b). ac(a,c(v)). ac(b,a).`; with `opt = true` the handle of `b` denotes `a`'s condition …
+the constant ⊤ (`a` is true in the grounded interpretation), with `opt = false` it denotes the variable `a` -/
+example :
+    (let r := Bio.hybridStep (Bio.ttLib 2) Bio.ttDump2 true (Bio.fromFormulas (Bio.ttLib 2) Bio.exChain2)
+     ∀ t, r.2[1]? = some t → ∀ σ, eval r.1 t σ = true) ∧
+    (let r := Bio.hybridStep (Bio.ttLib 2) Bio.ttDump2 false (Bio.fromFormulas (Bio.ttLib 2) Bio.exChain2)
+     ∀ t, r.2[1]? = some t → ∀ σ, eval r.1 t σ = σ 0) := by
+  have ⟨a, b, c, _⟩ := Bio.fromFormulas_spec Bio.exChain2 (Bio.ttLawful 2) Bio.exChain2_ok
+  have hg : (Bio.bioGrounded (Bio.ttLib 2) (Bio.fromFormulas (Bio.ttLib 2) Bio.exChain2)).map storeIsConst =
+      [some true, some true] := by decide
+  have hden : ∀ x, (Bio.fromFormulas (Bio.ttLib 2) Bio.exChain2)[1]? = some x →
+      (Bio.ttLawful 2).den x = fun σ => σ 0 := by
+    intro x hx
+    have h1 : ((Bio.fromFormulas (Bio.ttLib 2) Bio.exChain2).map (Bio.ttLawful 2).den)[1]? =
+        some ((Bio.ttLawful 2).den x) := by simp [hx]
+    rw [c] at h1
+    simp only [Bio.exChain2, List.map_cons, List.getElem?_cons_succ, List.getElem?_cons_zero,
+      Option.some.injEq] at h1
+    rw [← h1]; rfl
+  have hx : ∃ x, (Bio.fromFormulas (Bio.ttLib 2) Bio.exChain2)[1]? = some x :=
+    ⟨_, List.getElem?_eq_getElem (by rw [a]; decide)⟩
+  obtain ⟨x, hx⟩ := hx
+  constructor
+  · intro r t ht σ
+    have h := (hybrid_import_function (Bio.ttLib 2) 2 (Bio.ttLawful 2) Bio.ttDump2 Bio.ttDump2_spec true
+      _ b a).2.2.2 1 t x ht hx
+    rw [h.2 σ, hden x hx, hg]
+    simp [over, upd]
+  · intro r t ht σ
+    have h := (hybrid_import_function (Bio.ttLib 2) 2 (Bio.ttLawful 2) Bio.ttDump2 Bio.ttDump2_spec false
+      _ b a).2.2.2 1 t x ht hx
+    rw [h.2 σ, hden x hx]
+    simp
+
+/-- two tables holding `x0 ∧ x1` under DIFFERENT handles (the second has an extra node and another
+numbering) -/
+def isoA : Store :=
+  { nodes := #[⟨VBOT, 0, 0⟩, ⟨VTOP, 1, 1⟩, ⟨1, 0, 1⟩, ⟨0, 0, 2⟩], uniq := {}, resC := {}, iteC := {} }
+def isoB : Store :=
+  { nodes := #[⟨VBOT, 0, 0⟩, ⟨VTOP, 1, 1⟩, ⟨5, 0, 1⟩, ⟨1, 0, 1⟩, ⟨0, 0, 3⟩], uniq := {}, resC := {}, iteC := {} }
+
+/-- non-vacuity of `validator_sound`: both tables pass `wfCheck`, the comparison of handle 3 with handle 4
+says YES (`isoF … = true`, two inner levels, the memo is used), hence the functions are equal; and it says
+NO for handle 3 against handle 3 (`x0 ∧ x1` vs `x1`) -/
+example : wfCheck isoA.nodes = true ∧ wfCheck isoB.nodes = true ∧
+    (isoF isoA.nodes isoB.nodes 3 {} 3 4).1 = true ∧ (isoF isoA.nodes isoB.nodes 3 {} 3 3).1 = false ∧
+    ∀ σ, eval isoA 3 σ = eval isoB 4 σ := by
+  have h : (isoF isoA.nodes isoB.nodes 3 {} 3 4).1 = true := by simp [isoF, isoA, isoB]
+  exact ⟨by decide, by decide, h, by simp [isoF, isoA, isoB],
+    validator_sound isoA isoB (by decide) (by decide) 3 3 4 h⟩
 
 example : (Fm.and (.atom 0) (.not (.atom 1))).atomsOK := by simp [Fm.atomsOK, VBOT]
 
